@@ -1,7 +1,7 @@
 #!/bin/sh
 # usage: tools/seedall.sh [name...]  -- runs, for every kept seed, the quick checks named in its meta.json against a scratch worktree carrying the change
 cd /verif
-names="$@"; [ -z "$names" ] && names=$(ls seeded)
+names="$@"; [ -z "$names" ] && names=$(ls seeded | grep -v "^_")
 for n in $names; do
   checks=$(/venv/bin/python -c "import json;print(' '.join(json.load(open('seeded/$n/meta.json'))['detected_by']))")
   out=$(tools/seedrun.sh seeded/$n $checks)
